@@ -67,6 +67,9 @@ def check(chk):
     r42(chk, m)
     r43(chk, m)
     r44(chk, m)
+    chain_rules(chk, m, 'R4.6')
+    from . import shared
+    shared.cache_rules(chk, m, 'R4.5')
     chk.decline('that every concrete document leaves depth 1 (depends on the document being balanced)')
 
 
@@ -422,11 +425,11 @@ class RegHooks(TableHooks):
         return TableHooks.call(self, interp, node, fname, args, kwargs, state)
 
 
-def registrations(m, fn, extra, nframes=3, inline=3):
+def registrations(m, fn, extra, nframes=3, inline=3, hooks_cls=None):
     """Interpret a Context method on a heap of `nframes` frames; per normal exit the set of frames (index from the
     bottom, -1 = innermost) that received a macro or a \\let."""
     Context = m.cls('plasTeX.Context', 'Context')
-    h = RegHooks(m, Context)
+    h = (hooks_cls or RegHooks)(m, Context)
     h.keep = lambda ev: False
     it = A.Interp(model=m, scope=fn, hooks=h, max_iter=3, exc_edges=False, inline=inline, heap=True)
     env = ctx_heap(m, nframes)
@@ -536,6 +539,12 @@ class HeapHooks(TableHooks):
             return A.TOP
         if fname in ('dict.__contains__', 'super().__contains__') and isinstance(state.env.get('self'), A.Obj):
             return args[-1] in state.env['self'].attrs.get('__own', {})
+        if fname in ('dict.keys', 'super().keys') and args and isinstance(args[0], A.Obj):
+            return list(args[0].attrs.get('__own', {}).keys())
+        if fname == 'dict.fromkeys' and args and isinstance(args[0], (list, tuple)) and A.is_concrete(args[0]):
+            return dict.fromkeys(args[0], args[1] if len(args) > 1 else None)
+        if fname == 'type' and len(args) == 3:
+            return A.Obj('newclass:%s' % (args[0],), {'__class': 'type'})
         return TableHooks.call(self, interp, node, fname, args, kwargs, state)
 
 
@@ -581,8 +590,84 @@ def run_stack(m, fn, env, inline=3):
     return res
 
 
-def r44(chk, m):
-    R = chk.rule('R4.4', 'frames on a small heap (abstract interpretation): chained lookup through parent frames; \\let lookup '
+def chain_rules(chk, m, rid):
+    """Lookup through the chain of frames; registration of unknown names; \\newif guard."""
+    R = chk.rule(rid, 'name lookup over a chain of three frames (abstract interpretation on a small heap): frame[key], frame.get, '
+                 'key in frame and frame.keys() see the names of every enclosing frame; an unknown name gets one class that is '
+                 'registered globally on every path; \\newif of an existing name is a no-op', 10)
+    ci = m.cls('plasTeX.Context', 'ContextItem')
+    Context = m.cls('plasTeX.Context', 'Context')
+
+    def chain():
+        g = A.Obj('G', {'__own': {'a': 'va'}, 'parent': None}, cls=ci)
+        mid = A.Obj('M', {'__own': {'b': 'vb'}, 'parent': g}, cls=ci)
+        top = A.Obj('T', {'__own': {'c': 'vc'}, 'parent': mid}, cls=ci)
+        return top
+    cases = [('__getitem__', {'key': 'a'}, {('return', "'va'")}, 'a name of the outermost frame is found from the innermost'),
+             ('__getitem__', {'key': 'zz'}, {('raise', "'KeyError'")}, 'an unknown name raises KeyError'),
+             ('get', {'key': 'a', 'default': 'D'}, {('return', "'va'")}, 'get() finds a name of the outermost frame'),
+             ('get', {'key': 'zz', 'default': 'D'}, {('return', "'D'")}, 'get() of an unknown name gives the default'),
+             ('has_key', {'key': 'a'}, {('return', 'True')}, 'a name of the outermost frame is "in" the innermost'),
+             ('has_key', {'key': 'c'}, {('return', 'True')}, 'an own name is "in" the frame'),
+             ('has_key', {'key': 'zz'}, {('return', 'False')}, 'an unknown name is not "in" the frame'),
+             ('keys', {}, {('return', "['a', 'b', 'c']")}, 'keys() lists the names of all enclosing frames')]
+    for meth, extra, want, label in cases:
+        fn = m.find_method(ci, meth)
+        need(fn is not None, 'ContextItem.%s not found' % meth)
+        chk.analysed(fn)
+        h = HeapHooks(m, ci)
+        h.keep = lambda ev: False
+        it = A.Interp(model=m, scope=fn, hooks=h, max_iter=8, exc_edges=False, precise_exc=True, heap=True, inline=6)
+        env = {'self': chain()}
+        env.update(extra)
+        outs = it.run_function(fn, env=env)
+        got = set()
+        for kind, s2, v in outs:
+            if meth == 'keys' and isinstance(v, list) and A.is_concrete(v):
+                v = sorted(v)
+            if meth == 'has_key' and (v is None or isinstance(v, bool)):
+                v = bool(v)
+            got.add((kind, repr(v)))
+        chk.decide(R, 'ContextItem.%s: %s' % (meth, label), got, want,
+                   'ContextItem.%s(%s) on the innermost of three chained frames {a} <- {b} <- {c} gives %s, expected %s: %s'
+                   % (meth, ', '.join('%s=%r' % kv for kv in extra.items()), sorted(got), sorted(want), label), chk.where(fn))
+    # unknown names
+    fn = m.find_method(Context, '__getitem__')
+    chk.analysed(fn)
+    env = ctx_heap(m, 2)
+    for f in env['__frames']:
+        f.attrs['__items'] = {}
+        f.attrs['__complete'] = True
+    env['self'].attrs['__items'] = env['__frames'][0].attrs['__items']      # context[key] = v is addGlobal
+    env['key'] = 'foo'
+    h = HeapHooks(m, Context)
+    h.keep = lambda ev: False
+    it = A.Interp(model=m, scope=fn, hooks=h, max_iter=2, exc_edges=False, precise_exc=True, heap=True)
+    got = set()
+    for kind, s2, v in it.run_function(fn, env=env):
+        reg = s2.env['__frames'][0].attrs['__items'].get('foo')
+        got.add((kind, 'a new class' if isinstance(v, A.Obj) else repr(v), 'registered globally' if (reg is v and isinstance(v, A.Obj)) else 'not registered'))
+    chk.decide(R, 'Context.__getitem__ registers the class made for an unknown name', got, {('return', 'a new class', 'registered globally')},
+               'looking up an unknown name gives %s; expected, on every path, one new class that is also registered in the global '
+               'frame - otherwise \\begin{foo} and \\end{foo} get different classes and the end no longer matches the begin' % sorted(got),
+               chk.where(fn))
+    # \newif guard
+    fn = m.find_method(Context, 'newif')
+    chk.analysed(fn)
+    for label, known, want in (('an existing \\newif is left alone', ['iffoo'], {()}), ('a new \\newif registers globally', [], {(0,)})):
+        class H(RegHooks):
+            def call(self, interp, node, fname, args, kwargs, state, known=known):
+                if fname == 'self.keys' and not args:
+                    return list(known)
+                return RegHooks.call(self, interp, node, fname, args, kwargs, state)
+        got = registrations(m, fn, {'name': 'iffoo', 'initial': False}, hooks_cls=H)
+        chk.decide(R, 'Context.newif: %s' % label, {repr(g) for g in got}, {repr(w) for w in want},
+                   'newif("iffoo") with known names %s registers in frames %s, expected %s: a repeated declaration (\\provideboolean, a '
+                   'package loaded twice) must not reset the switch' % (known, sorted(got), sorted(want)), chk.where(fn))
+
+
+def r44(chk, m, rule_id='R4.4'):
+    R = chk.rule(rule_id, 'frames on a small heap (abstract interpretation): chained lookup through parent frames; \\let lookup '
                  'innermost-first; pop removes exactly the frames of the group being closed (exact class for \\end, never the '
                  'parent node\'s frame, never the global frame); after every push and pop top/categories/depth describe the '
                  'innermost frame and frames are chained to their parent', 14)
